@@ -232,7 +232,7 @@ Inductive op :=
 | Free (h : nat)
 | EprKeep (n : nat) (recv : bool)
 | EprContext (n : nat) (recv : bool)
-| EprKeepSeq (n : nat) (recv : bool)   (* keep, sequential=True, post_routine measures the pair *)
+| EprKeepSeq (n : nat) (recv : bool)   (* keep with sequential=True and a post routine that measures the pair *)
 | Flush.
 
 (* sequential keep: every pair gets the same ID (_create_ent_qubits, `sequential`):
@@ -249,6 +249,18 @@ Definition seq_handles (k : cfg) (s : sdk) (n : nat) : res (sdk * nat) :=
        | None => inr ErrFuel
        | Some v => inl (add_handles (commit s) v n, v)
        end.
+
+(* n pairs pass one after the other through one ID, each consumed (measured and
+   freed) before the next is delivered; the n reserved handles are deactivated at
+   the end.  zero: the request names ID 0 for every pair (sdk_epr_keep with a single
+   communication qubit) rather than the handles' ID. *)
+Definition seq_run (k : cfg) (s : sdk) (n : nat) (zero : bool) : res sdk :=
+  match seq_handles k s n with
+  | inr e => inr e
+  | inl (s1, v) =>
+      let s2 := emit s1 (ctx_loop (repeat (if zero then 0 else v) n)) in
+      inl (mkSdk (drop_last_handles n (active s2)) (next_h s2) (pending s2) (last_new s2))
+  end.
 
 (* _build_cmds_measure: on NV a qubit that is not at ID 0 is measured after the
    qubit occupying ID 0 (if any) has been moved away *)
@@ -312,6 +324,13 @@ Definition sdk_step (k : cfg) (s : sdk) (o : op) : res sdk :=
   | EprContext n _ =>
       if n =? 0 then inr ErrUnmodelled
       else if max_q k <? n then inr ErrReject          (* _assert_epr_args *)
+      else if single_comm k then
+        (* _pre_epr_context: with one communication qubit all pairs get that qubit's ID
+           (the `sequential` ID assignment); the handles were never shown to the host *)
+        match seq_run k s n false with
+        | inr e => inr e
+        | inl s' => inl (mkSdk (active s') (next_h s) (pending s') (last_new s'))
+        end
       else match ent_handles k s n with
            | inr e => inr e
            | inl (s1, vs) =>
@@ -323,13 +342,11 @@ Definition sdk_step (k : cfg) (s : sdk) (o : op) : res sdk :=
            end
   | EprKeepSeq n _ =>
       if n =? 0 then inr ErrUnmodelled
-      else match seq_handles k s n with
-           | inr e => inr e
-           | inl (s1, v) =>
-               (* _build_cmds_post_epr: pair after pair is delivered, measured by the
-                  post routine and freed; the n handles handed to the host stay active *)
-               inl (emit s1 (ctx_loop (repeat (if single_comm k then 0 else v) n)))
-           end
+      else
+        (* _build_cmds_post_epr: pair after pair is delivered, measured by the post
+           routine and freed; the routine consumed its qubit, so the n handles handed
+           to the host are deactivated (they keep their numbers) *)
+        seq_run k s n (single_comm k)
   | Flush => inl s
   end.
 
@@ -404,7 +421,7 @@ Definition in_budget (k : cfg) (s : sdk) (o : op) : bool :=
   | Flush => true
   end.
 
-(* recorded findings (input classes on which the current code faults) *)
+(* recorded finding (input class on which the current code faults) *)
 (* C09:nv-transpiler-carbon-gate-borrows-unallocated-electron *)
 Definition hits_carbon_gate (k : cfg) (s : sdk) (o : op) : bool :=
   match o with
@@ -415,17 +432,8 @@ Definition hits_carbon_gate (k : cfg) (s : sdk) (o : op) : bool :=
       end
   | _ => false
   end.
-(* C09:nv-epr-context-preallocates-pair-ids *)
-Definition hits_nv_context (k : cfg) (o : op) : bool :=
-  match o with
-  | EprContext n _ => nv k && (2 <=? n)
-  | _ => false
-  end.
-(* C09:sequential-keep-handles-stay-active *)
-Definition hits_sequential_keep (o : op) : bool :=
-  match o with EprKeepSeq _ _ => true | _ => false end.
 Definition outside_findings (k : cfg) (s : sdk) (o : op) : bool :=
-  negb (hits_carbon_gate k s o) && negb (hits_nv_context k o) && negb (hits_sequential_keep o).
+  negb (hits_carbon_gate k s o).
 
 (* a predicate holds before every operation of the program (states follow the
    SDK model; the walk ends where the SDK refuses an operation) *)
